@@ -150,6 +150,7 @@ type Obligation struct {
 	Pos     string   // source position (informational only, never part of the name)
 	Inputs  []string // SMT constants whose model values describe the input
 	Note    string
+	LoopStart int    // lines before this index come from before the innermost enclosing loop header (quantified assumptions there are about pre-loop memory and are dropped)
 	caseSel int      // which case a standalone script asserts (-1: none)
 	Cases   []string // optional case split: the obligation holds iff it holds under each case (cases are exhaustive by construction)
 }
@@ -180,7 +181,9 @@ type Enc struct {
 	assumeNote []string
 	usedContracts map[string]bool
 	immut map[string]bool
+	elemPtrTypes map[string]bool
 	baseAlloc map[string]Term
+	loopStart int
 	protected map[string][]Term // heap key -> refs whose entries survive havocs
 	fieldInfo map[string]fieldRef
 }
@@ -236,7 +239,7 @@ func (e *Enc) assume(guard, fact Term) {
 }
 
 func (e *Enc) oblige(name, kind string, guard, goal Term, pos string) *Obligation {
-	o := &Obligation{caseSel: -1, Name: name, Kind: kind, Prefix: len(e.lines), Goal: implies(guard, goal).S, Func: e.top.String(), Pos: pos, Inputs: e.inputs}
+	o := &Obligation{caseSel: -1, LoopStart: e.loopStart, Name: name, Kind: kind, Prefix: len(e.lines), Goal: implies(guard, goal).S, Func: e.top.String(), Pos: pos, Inputs: e.inputs}
 	e.obls = append(e.obls, o)
 	return o
 }
@@ -814,4 +817,35 @@ func maxExisting(el types.Type) int64 {
 		m = int64(1) << 40
 	}
 	return m
+}
+
+// isElemPtrType: pointers to this struct type are declared (elemptr) to point into slice backing arrays only.
+func (e *Enc) isElemPtrType(t types.Type) bool {
+	if e.elemPtrTypes == nil {
+		e.elemPtrTypes = map[string]bool{}
+		for _, d := range e.w.CS.ElemPtr {
+			if tt, err := e.w.lookupType(d.Spec, d.Pkg); err == nil {
+				e.elemPtrTypes[types.TypeString(tt, nil)] = true
+			}
+		}
+	}
+	return e.elemPtrTypes[types.TypeString(t, nil)]
+}
+
+func (e *Enc) elemPtr(arr, idx Term) Term {
+	e.declare("(declare-fun eptr (Int Int) Int)")
+	e.declare("(declare-fun eptr_arr (Int) Int)")
+	e.declare("(declare-fun eptr_idx (Int) Int)")
+	p := e.def("eptr", T(SInt, "(eptr %s %s)", arr.S, idx.S))
+	e.assume(tTrue, T(SBool, "(and (> %s 0) (= (eptr_arr %s) %s) (= (eptr_idx %s) %s))", p.S, p.S, arr.S, p.S, idx.S))
+	return p
+}
+
+// elemAddr: the address denoted by an element pointer value p of element struct type t.
+func (e *Enc) elemAddr(p Term, t types.Type) *Addr {
+	e.declare("(declare-fun eptr (Int Int) Int)")
+	e.declare("(declare-fun eptr_arr (Int) Int)")
+	e.declare("(declare-fun eptr_idx (Int) Int)")
+	s := e.sortOf(t)
+	return &Addr{kind: AElem, key: e.memKey(s), ref: T(SInt, "(eptr_arr %s)", p.S), idx: T(SInt, "(eptr_idx %s)", p.S), sort: s, typ: t}
 }
